@@ -72,16 +72,7 @@ func init() {
 					r2 := c.crd([]string{"write", "--key", key}, r1.Stdout)
 					f := smf.Parse(r2.Stdout)
 					if r2.Exit == 0 && f.Err == "" {
-						runs := [][]int{}
-						cur := []int{}
-						for _, e := range f.Events {
-							if e.Kind == smf.KindOn && e.B > 0 {
-								cur = append(cur, e.A)
-							} else if len(cur) > 0 && (e.Kind == smf.KindOff || (e.Kind == smf.KindOn && e.B == 0)) {
-								runs = append(runs, cur)
-								cur = []int{}
-							}
-						}
+						runs := strikesByTick(f)
 						seq["ok"], seq["runs"] = true, runs
 					}
 				}
